@@ -90,6 +90,7 @@ type ModelVar struct {
 type Unit struct {
 	inTypeInv bool // a type invariant is being expanded
 	patHits map[string]map[string]bool // clause pattern -> callees it matched (review aid)
+	strLtAx bool                        // the order axioms of str_lt have been emitted for this unit
 	cx            *Ctx
 	enc           *Enc
 	assumes       []string
